@@ -2,6 +2,7 @@ package props
 
 import (
 	"os"
+	"sort"
 	"testing"
 )
 
@@ -14,4 +15,14 @@ func TestMain(m *testing.M) {
 		os.Exit(workerMain(mode))
 	}
 	os.Exit(m.Run())
+}
+
+func sortStrings(s []string) { sort.Strings(s) }
+
+func seqInts(n int) []int {
+	out := make([]int, n)
+	for i := range out {
+		out[i] = i
+	}
+	return out
 }
